@@ -85,6 +85,7 @@ type Contract struct {
 	Uses     []string // axiom groups this function's proofs may use
 	TaggedOnly []string // properties for which only explicitly tagged clauses of this function count
 	NoNil    bool     // rte.nil obligations are not generated (stated assumption)
+	AtCall   map[string][]Clause // extra call-site obligations, by callee key
 	DynPure  bool     // stated assumption: function values called by this function do not modify library state
 	Sweep    bool     // zero-annotation C07 sweep: only run-time-error (and invariant) obligations; callee preconditions assumed
 	NoRteKinds []string // run-time-error kinds not claimed for this function
@@ -292,6 +293,23 @@ func (sp *Spec) loadFile(path string, pkg string) error {
 			} else {
 				cur.Ensures = append(cur.Ensures, cl)
 			}
+		case "at-call":
+			// at-call <callee key> requires <expr over the callee's parameter names>: an additional obligation at
+			// every call of that callee inside this function (a precondition this caller has to establish although it
+			// is not part of the callee's general contract)
+			f := strings.SplitN(rest, " requires ", 2)
+			if len(f) != 2 {
+				return fail(fmt.Errorf("at-call: expected '<callee> requires <expr>'"))
+			}
+			e, err := parseExpr(strings.TrimSpace(f[1]))
+			if err != nil {
+				return fail(err)
+			}
+			if cur.AtCall == nil {
+				cur.AtCall = map[string][]Clause{}
+			}
+			ck := strings.TrimSpace(f[0])
+			cur.AtCall[ck] = append(cur.AtCall[ck], Clause{Text: strings.TrimSpace(f[1]), E: e})
 		case "modifies":
 			cur.Modifies = append(cur.Modifies, splitList(rest)...)
 		case "loop":
